@@ -307,6 +307,8 @@ def run_config(unit, cfgname, workdir, tier='quick', mutate=None, want_trace=Fal
         flags += ' --object-bits ' + cfg['object_bits']
     if want_trace:
         flags += ' --trace'
+    if cfg.get('only_property'):
+        flags += ' --property ' + cfg['only_property']
     cmd3 = 'cbmc %s %s --json-ui --verbosity 6' % (b, flags)
     res.cmds.append(cmd3)
     rc, out, err, dt = sh(cmd3, tmo)
@@ -356,7 +358,7 @@ def run_config(unit, cfgname, workdir, tier='quick', mutate=None, want_trace=Fal
     if len(res.obligations) < mino and not res.failed:
         res.status, res.reason = 'inconclusive', 'only %d obligations, spec floor is %d' % (len(res.obligations), mino)
         return res
-    if loopc and sp.loops:
+    if loopc and sp.loops and not cfg.get('only_property'):
         names = ' '.join(o['name'] or '' for o in res.obligations) + ' '.join(o['desc'] or '' for o in res.obligations)
         n_inv = len(re.findall(r'loop invariant.*(?:before entry|base)', ' '.join((o['desc'] or '') + '\n' for o in res.obligations)))
         n_step = len([o for o in res.obligations if re.search(r'invariant is preserved|loop_invariant_step', (o['desc'] or '') + (o['name'] or ''))])
@@ -378,7 +380,7 @@ def reach_probe(unit, cfgname, workdir, ctext):
         return None
     cfg = dict(sp.configs[cfgname])
     probe_spec_cfg = cfgname + '__reach'
-    sp.configs[probe_spec_cfg] = dict(cfg, defs=cfg.get('defs', '') + ' -DREACH_PROBE_ON=1', min_obligations='1')
+    sp.configs[probe_spec_cfg] = dict(cfg, defs=cfg.get('defs', '') + ' -DREACH_PROBE_ON=1', min_obligations='1', only_property='harness.assertion.1')
     old_name = sp.name
     try:
         r = run_config(unit, probe_spec_cfg, workdir, ctext=ctext)
